@@ -3,8 +3,8 @@ package main
 // Shared rule shapes built on E1.
 
 import (
-	"go/ast"
 	"fmt"
+	"go/ast"
 	"go/token"
 	"go/types"
 	"strings"
